@@ -615,9 +615,8 @@ class Enum:
                                              e.rk(e.idx(j)) == j)), patterns=[e.idx(j)]),
             z3.ForAll([j, j2], z3.Implies(z3.And(0 <= j, j < j2, j2 < e.cnt), e.idx(j) < e.idx(j2)),
                       patterns=[z3.MultiPattern(e.idx(j), e.idx(j2))]),
-            z3.ForAll([i], z3.Implies(z3.And(0 <= i, i < nn, gi),
-                                      z3.And(0 <= e.rk(i), e.rk(i) < e.cnt, e.idx(e.rk(i)) == i)),
-                      patterns=trig),
+            safe_forall([i], z3.Implies(z3.And(0 <= i, i < nn, gi),
+                                        z3.And(0 <= e.rk(i), e.rk(i) < e.cnt, e.idx(e.rk(i)) == i)), trig, [e.rk(i)]),
             # monotone rank: number of selected positions below i
             z3.ForAll([i, j], z3.Implies(z3.And(0 <= i, i < j, j < nn, zbool(g(i)), zbool(g(j))),
                                          e.rk(i) < e.rk(j)),
@@ -691,6 +690,26 @@ class Enum:
                 ctx.assumptions.append(z3.ForAll([i], e1.rk(i) == e.rk(i), patterns=[e1.rk(i)]))
                 ctx.assumptions.append(z3.ForAll([i], e1.rk(i) == e.rk(i), patterns=[e.rk(i)]))
                 ctx.used_models.add("meta-lemma: increasing enumerations of equivalent predicates over one range coincide")
+                continue
+            compl = z3.And(zint(e1.n) == zint(e.n),
+                           z3.Implies(in_range(kf, e.n), zbool(e1.g(kf)) == z3.Not(zbool(e.g(kf)))))
+            if ctx.valid(compl, 1500):
+                # complementary predicates: the two enumerations partition the range (counting, by induction on i)
+                i = z3.Int("i!ax")
+                nn = zint(e.n)
+                ctx.assumptions.append(z3.Implies(nn >= 0, e1.cnt + e.cnt == nn))
+                ctx.assumptions.append(z3.ForAll([i], z3.Implies(z3.And(0 <= i, i <= nn), e1.cb(i) + e.cb(i) == i), patterns=[e1.cb(i)]))
+                ctx.assumptions.append(z3.ForAll([i], z3.Implies(z3.And(0 <= i, i <= nn), e1.cb(i) + e.cb(i) == i), patterns=[e.cb(i)]))
+                ctx.used_models.add("meta-lemma: enumerations of complementary predicates partition the range (counts add up)")
+
+
+def safe_forall(vars_, body, patterns, fallback):
+    for pats in (patterns, fallback):
+        try:
+            return z3.ForAll(vars_, body, patterns=pats)
+        except z3.Z3Exception:
+            continue
+    return z3.ForAll(vars_, body)
 
 
 def forall(vars_, body, patterns=None):
@@ -728,6 +747,16 @@ def occurs(const, term):
     return False
 
 
+def has_ite(t):
+    todo = [t]
+    while todo:
+        x = todo.pop()
+        if z3.is_app_of(x, z3.Z3_OP_ITE) or z3.is_quantifier(x):
+            return True
+        todo.extend(x.children())
+    return False
+
+
 def pattern_terms(term, var):
     """Uninterpreted-function applications inside `term` that mention `var` (usable as triggers)."""
     out = []
@@ -740,7 +769,7 @@ def pattern_terms(term, var):
             continue
         seen.add(i)
         if z3.is_app(x) and x.decl().kind() == z3.Z3_OP_UNINTERPRETED and x.num_args() > 0 and occurs(var, x):
-            if all(not z3.is_quantifier(c) for c in x.children()):
+            if all(not z3.is_quantifier(c) for c in x.children()) and not has_ite(x):
                 out.append(x)
                 continue
         todo.extend(x.children())
